@@ -7,16 +7,24 @@ allvars == <<sc, path, t, fin, out>>
 CNeg1 == -1
 Steady(id) == CASE id = "L1" -> <<R(2)>> [] id = "L2" -> <<R(2)>> [] id = "L3" -> <<RZero, RZero>>
                 [] id = "L6" -> <<RZero, R(1)>> [] id = "L9" -> <<R(-2)>> [] id = "L4" -> <<R(2)>>
+\* Deep selects the larger scenario sets of the thorough tier (overridden in the .thorough.cfg files: Deep <- DeepOn)
+Deep == FALSE
+DeepOn == TRUE
 \* deviations of the initial window (x_0, x_{-1}) from the steady state
 InitDevs(id) == LET n == Len(Model(id).vars) IN
     { <<RZeroVec(n), RZeroVec(n)>>,
       <<[i \in 1..n |-> R(i)], [i \in 1..n |-> R(1 - i)]>>,
       <<[i \in 1..n |-> Q(-1, 2)], [i \in 1..n |-> R(2)]>> }
+    \cup (IF Deep THEN { <<[i \in 1..n |-> Q(3, 2)], [i \in 1..n |-> Q(-2, 3)]>>,
+                         <<[i \in 1..n |-> R(2 * i - 3)], RZeroVec(n)>> } ELSE {})
 \* shock profiles as sets of <<period, shock index, value>>
 UProfiles(id) == LET ns == Len(Model(id).shocks) IN
     { {}, {<<1, 1, 1>>}, {<<2, 1, CNeg1>>, <<3, ns, 2>>}, {<<1, ns, 1>>, <<4, 1, 1>>} }
+    \cup (IF Deep THEN { {<<1, 1, 2>>, <<2, 1, CNeg1>>, <<3, 1, 1>>, <<4, ns, 2>>},      \* a surprise in every period: four frames
+                         {<<3, 1, 3>>}, {<<4, ns, CNeg1>>}, {<<2, ns, 1>>, <<2, 1, 2>>} } ELSE {})
 AProfiles(id) == LET ns == Len(Model(id).shocks) IN
     { {}, {<<2, 1, 1>>}, {<<4, 1, CNeg1>>, <<3, ns, 1>>}, {<<1, 1, 2>>, <<4, ns, 1>>} }
+    \cup (IF Deep THEN { {<<1, 1, 1>>, <<2, 1, 1>>, <<3, 1, 1>>, <<4, 1, 1>>}, {<<3, 1, 2>>}, {<<4, ns, 3>>}, {<<2, ns, CNeg1>>, <<3, 1, CNeg1>>} } ELSE {})
 Prof(id, S) == [s \in 1..(TN + H + 2) |-> [j \in 1..Len(Model(id).shocks) |->
                   IF \E e \in S : e[1] = s /\ e[2] = j THEN R((CHOOSE e \in S : e[1] = s /\ e[2] = j)[3]) ELSE RZero]]
 WProf(id) == [s \in 1..(TN + H + 2) |-> [j \in 1..Len(Model(id).mshocks) |-> IF s = 2 THEN R(1) ELSE IF s = 3 THEN R(-2) ELSE RZero]]
